@@ -266,8 +266,9 @@ class CSSStyleSheet(css_parser.stylesheets.StyleSheet):
             if token[1] in css_parser.css.MarginRule.margins:
                 self._log.error('CSSStylesheet: MarginRule out CSSPageRule.',
                                 token, neverraise=True)
-                rule = css_parser.css.MarginRule(parentStyleSheet=self)
-                rule.cssText = self._tokensupto2(tokenizer, token)
+                # consume the statement, a margin rule is not kept in a sheet
+                self._tokensupto2(tokenizer, token)
+                return max(1, expected or 0)
             else:
                 self._log.warn('CSSStylesheet: Unknown @rule found.',
                                token, neverraise=True)
